@@ -375,6 +375,14 @@ impl<'a> Analysis<'a> {
                         continue;
                     }
                     let w = s.ends[end].nonempty_writes as u32;
+                    // a bridged end coalesces several local chunks into one Push: only the window rule applies there
+                    let bridged = self.case.bridges.iter().any(|b| b.stream as usize == i && b.end as usize == end);
+                    if bridged {
+                        if g.push_sent[side] > w {
+                            return Err(("c03-push-count".into(), format!("stream {i} (flow {id:08x}) bridged end {end}: {} Push frames for {w} chunks taken from the local side", g.push_sent[side])));
+                        }
+                        continue;
+                    }
                     if g.push_sent[side] != w {
                         return Err((
                             "c03-push-count".into(),
